@@ -114,6 +114,12 @@ class CleanPass(FunctionPass):
         block1.remove_instruction(last_jump)
         last_jump.delete()
 
+        # block1 is the only predecessor of block2, so the phi nodes of
+        # block2 are equal to the value coming in from block1:
+        for phi in block2.phis:
+            phi.replace_by(phi.get_value(block1))
+            phi.remove_from_block()
+
         # Copy all instructions to block1:
         for instruction in block2:
             block1.add_instruction(instruction)
